@@ -471,3 +471,74 @@ def ops_eq_child(rng, d):
     ops.append({"op": "Eq", "a": 1, "b": 2, "must": False})
     ops.append({"op": "Eq", "a": 2, "b": 1, "must": False})
     return ops, 2
+
+
+# ------------------------------------------------------------------------------------------------
+# C14: DataFrame filling
+F_VALS = [Q(v) for v in (F(-2), F(-1), F(0), F(1), F(2), F(3), F(4), F(5), F(1, 2), F(5, 2))] + [NAN]
+I_VALS = [Q(v) for v in range(-2, 6)]
+T_VALS = [Q(v) for v in (-30, -1, 0, 1, 29, 30, 31, 59, 60, 90, 7, 14)]
+
+
+def frame_rows(rng, n):
+    return [{"f": rng.choice(F_VALS), "g": rng.choice(F_VALS), "i": rng.choice(I_VALS), "j": rng.choice(I_VALS),
+             "b": rng.choice(["True", "False"]), "t": rng.choice(T_VALS), "x": Q(0), "y": Q(0), "s": Q(1), "c": "a",
+             "fa": "", "fm": ""} for _ in range(n)]
+
+
+def num_spec(rng, col, last):
+    """an explicit bin specification for a numeric / timestamp column (abstract numbers)"""
+    t = col == "t"
+    kinds = ["sparse", "sparse", "bin", "edges", "centers", "thresholds"] + (["sum", "average", "deviate", "minimize", "maximize"] if last and not t else [])
+    k = rng.choice(kinds)
+    if k == "sparse":
+        return {"binWidth": Q(rng.choice([1, 2, F(1, 2)] if not t else [1, 7, 30])), "origin": Q(rng.choice([0, 1]))}
+    if k == "bin":
+        n, lo, hi = rng.choice([(2, 0, 4), (4, 0, 4), (3, -1, 2)] if not t else [(2, 0, 60), (3, 0, 90), (4, -30, 90)])
+        return {"num": n, "low": Q(lo), "high": Q(hi)}
+    if k == "edges":
+        return {"edges": [Q(v) for v in (rng.choice([[1, 3], [0, 2, 4]]) if not t else [0, 30, 60])]}
+    if k == "centers":
+        return {"centers": [Q(v) for v in (rng.choice([[0, 2, 4], [-1, 1, 2, 5]]) if not t else [0, 30, 90])]}
+    if k == "thresholds":
+        return {"thresholds": [Q(v) for v in ([1, 3] if not t else [0, 30])]}
+    return {k: True}
+
+
+def ops_frame(rng):
+    n = rng.randint(1, 10)
+    rows = frame_rows(rng, n)
+    mode = rng.choice(["unit", "unit", "specs", "specs", "speclist", "auto", "time"])
+    if mode == "time":
+        cols = ["t", rng.choice(["f", "i", "b"])] + ([rng.choice(["g", "j"])] if rng.random() < 0.3 else [])
+    elif mode == "auto":
+        cols = rng.sample(["i", "j", "b"], rng.choice([1, 2]))
+    else:
+        cols = rng.sample(["f", "g", "i", "j", "b", "t"], rng.choice([1, 1, 2, 2, 3]))
+    op = {"op": "MH", "t": 1, "rows": rows, "cols": cols, "features": [cols], "binning": "auto" if mode == "auto" else "unit",
+          "given": None, "time_axis": "", "reuse": 0}
+    if mode in ("specs", "speclist"):
+        num_cols = [c for c in cols if c != "b"]
+        if mode == "specs":
+            op["given"] = {c: num_spec(rng, c, c == cols[-1]) for c in num_cols if rng.random() < 0.8}
+        elif len(cols) > 1:
+            op["given"] = {":".join(cols): [({} if c == "b" or rng.random() < 0.2 else num_spec(rng, c, c == cols[-1])) for c in cols]}
+    if mode == "time":
+        op["time_axis"] = "t"
+        op["time_width"] = rng.choice(["30d", "7d", "1d"])
+    ops = [op]
+    # chunks binned with the returned specifications add up to the whole
+    k = rng.randint(1, min(3, n))
+    cuts = sorted(rng.sample(range(1, n), k - 1)) if k > 1 else []
+    bounds = [0] + cuts + [n]
+    slots = []
+    for ci in range(k):
+        ch = rows[bounds[ci]:bounds[ci + 1]]
+        ops.append(dict(op, t=2 + ci, rows=ch, reuse=1))
+        slots.append(2 + ci)
+    acc = slots[0]
+    for s in slots[1:]:
+        ops.append({"op": "Add", "t": 5, "a": acc, "b": s})
+        acc = 5
+    ops.append({"op": "Eq", "a": 1, "b": acc, "must": False})
+    return ops, 5, cols
